@@ -342,6 +342,20 @@ def run(world, rep, tier, only=None):
         rep.ob("C19.f", site(q, "every mapped cluster is copied#%d" % i), not extra,
                "extra conditions on the copy: %s" % [("" if t else "!") + T.pp(a)[:50] for t, a in extra])
 
+    # ------------------------------------------------------------------ C19.g zero blocks are skipped only on a target known to be empty
+    # The raw writer may leave an all-zero metadata block as a hole instead of writing it, but raw targets are opened
+    # without O_TRUNC: on a file that already has content the old bytes would stay where the zeros belong.  The flag
+    # that enables the shortcut is set only when the target did not exist before.
+    zs = [n for n in mn.events("S") if store_sets_bits(n, "E2IMAGE_CHECK_ZERO_FLAG")]
+    rep.floor("C19.g stores of E2IMAGE_CHECK_ZERO_FLAG in main", len(zs), 1)
+    for i, n in enumerate(zs):
+        lits = control_lits(mn, n)
+        fresh = any(t and any(cc.get("fn") == "access" and "F_OK" in T.macros(cc["a"][1]) for cc in T.calls(a)) for t, a in lits) or \
+            any("O_TRUNC" in T.macros(a) or "O_EXCL" in T.macros(a) for t, a in lits if t)
+        rep.ob("C19.g", site(mn, "zero-block skipping only for a target that did not exist#%d" % i), fresh,
+               "flags |= E2IMAGE_CHECK_ZERO_FLAG under access(image_fn, F_OK) != 0: guards %s" %
+               [("" if t else "!") + T.pp(a)[:40] for t, a in lits][-3:])
+
     # ------------------------------------------------------------------ C19.w offset width
     fns = [f for f in prog.functions() if f.file in (E2I, QC, "lib/ext2fs/imager.c")]
     hits, n_and = width.zx_masks(fns)
